@@ -360,6 +360,7 @@ theorem backed_step (cfg : Cfg) (s : State) (op : Op) (hu : userOnly op) (h : Ba
   | reset => exact ⟨backed_init, fun x hx => absurd hx List.not_mem_nil⟩
   | chan l r => exact ⟨h, hc⟩
   | vmeta l => exact ⟨h, hc⟩
+  | migrate => exact ⟨h, hc⟩
   | seqset l n =>
     simp only [stepWith]
     split
